@@ -68,9 +68,9 @@ func init() {
 	registerProp(&Property{
 		ID: "C08", Kind: "sufficient static argument (parametricity)",
 		Tech:  "inter-procedural, field-based taint analysis over SSA (node identifiers as sources, everything but copying as sink)",
-		Rules: []string{"LANG-0", "ID-1", "ORD-3"},
+		Rules: []string{"LANG-0", "ID-1", "ORD-3", "DET-2"},
 		Explanation: "If, after Populate's de-duplication map (which only tests equality of input strings and is never ranged), an ID value is only copied - into another ID field, into a log string, or used to index the caller's own size map - then no control decision, key or order depends on it, and the layout is equivariant under every injective renaming, helper-looking names included. " +
-			"ID-1 taints every load of an ID field and every string read from the edge slice, propagates through phi, concatenation, boxing, calls/returns, closures, cells and fields, and reports any use other than the enumerated copies. ORD-3 closes the one gap of that argument: the look-up in the caller's size map is keyed by Node.ID, which later also holds names minted by the library (\"V1\", \"NE0\"); the size functions must therefore run in Layout before the component split and the pipeline, while every node still carries a caller-given name. Not decided: nothing beyond the trusted base.",
+			"ID-1 taints every load of an ID field and every string read from the edge slice, propagates through phi, concatenation, boxing, calls/returns, closures, cells and fields, and reports any use other than the enumerated copies. ORD-3 closes the one gap of that argument: the look-up in the caller's size map is keyed by Node.ID, which later also holds names minted by the library (\"V1\", \"NE0\"); the size functions must therefore run in Layout before the component split and the pipeline, while every node still carries a caller-given name. DET-2 closes the reflective channel: fmt formats a Layer or Node through its String method, which prints IDs, without any load of an ID field appearing at the call site; the inventory allows fmt only inside String/SVG methods, so a fingerprint such as fmt.Sprint(layers) used as a map key in the ordering loop is reported. Not decided: nothing beyond the trusted base.",
 		Assumptions: []string{"helper IDs built by the pipeline (\"V<n>\", \"NE<i>\") are themselves only copied (checked: they are stored into Node.ID and flow like any other ID)"},
 	})
 	registerProp(&Property{
